@@ -1670,11 +1670,26 @@ impl TreeProp {
                 }
             }
             ops.extend_from_slice(&extra); // C15: compute_root and close/reopen at depth 20 too
+            // operations that are cheap on every backend go one level deeper in the thorough tier; the far-offset
+            // range writes (tens of seconds and gigabytes each on the persistent backend) form a plan of their own
+            let is_far = |o: &TreeOp| matches!(o, TreeOp::Range(s, _) | TreeOp::Batch(s, _, _) if *s > 4096 && *s < c);
+            let light: Vec<TreeOp> = ops.iter().filter(|o| !is_far(o)).cloned().collect();
+            let far: Vec<TreeOp> = ops.iter().filter(|o| is_far(o)).cloned().collect();
             plans.push(ExploreCfg {
-                focus: f, depth: 20, ops,
-                backends: vec![(Kind::Optimal, 2), (Kind::Pm, 2), (Kind::Rln, 2)],
-                nodedup_len: 1, max_len: 2, positions: pos, full_obs: false, label: "depth20.positions".into(),
+                focus: f, depth: 20, ops: light,
+                backends: vec![(Kind::Optimal, 3), (Kind::Pm, if q { 2 } else { 3 }), (Kind::Rln, 2)],
+                nodedup_len: 1, max_len: if q { 2 } else { 3 }, positions: pos.clone(), full_obs: false, label: "depth20.positions".into(),
             });
+            if !far.is_empty() {
+                let mut fops = far;
+                fops.push(TreeOp::Set(0, 1));
+                fops.push(TreeOp::Delete(0));
+                plans.push(ExploreCfg {
+                    focus: f, depth: 20, ops: fops,
+                    backends: vec![(Kind::Optimal, 2), (Kind::Pm, 1), (Kind::Rln, 1)],
+                    nodedup_len: 1, max_len: 2, positions: pos, full_obs: false, label: "depth20.far-offset-ranges".into(),
+                });
+            }
         }
         plans
     }
